@@ -416,7 +416,7 @@ func c13r5(c *Ctx, id string) {
 			}
 			n++
 			c.see(fn)
-			key := "stream.observers|" + fname(root)
+			key := "stream.observers|" + siteRole(w, root)
 			guarded := guardedBy(in.Block(), false, func(v ssa.Value) bool {
 				eq, ok := isNilCompare(v, func(x ssa.Value) bool { return derefsTo(x, f) })
 				return ok && eq
